@@ -34,7 +34,7 @@ CHECKS = {
    note="Trusted: the predicate of DESIGN appendix B (derived from the RFC text), the scripted peer; CONNECT and out-of-grammar characters excluded as the property says.",
    ref="6.2 C20"),
  "C08": dict(technique="model-based property testing (rapid): RFC 7540 5.1/6 reaction model (set of allowed reactions per state x frame) followed along generated frame sequences, plus bounded-exhaustive enumeration of all sequences of <=3 symbols over a fixed (frame, stream slot) alphabet; lock-step via hook-counter quiescence",
-   text="Generated frame sequences (all stream-level frame kinds with flag/priority/padding/increment variants and undefined flag bits, on new, open, half-closed, reset, completed, skipped, even and zero stream ids, with connection frames in between; immediate or gated handlers) are sent one frame at a time; after each, the observed reaction must lie in the set the RFC allows for that state and frame, legal sequences must raise no error, and handler invocations must equal the legally completed requests. The same oracle is run over every sequence of 1..3 symbols of a 49-symbol alphabet (complete in the thorough tier, a seed-chosen residue class of the length-3 sequences in the quick tier) and over a quarter of the length-4 sequences (thorough). Exploration only: exhaustive within that bounded alphabet, sampled beyond it.",
+   text="Generated frame sequences (all stream-level frame kinds with flag/priority/padding/increment variants and undefined flag bits, on new, open, half-closed, reset, completed, skipped, even and zero stream ids, with connection frames in between; immediate or gated handlers) are sent one frame at a time; after each, the observed reaction must lie in the set the RFC allows for that state and frame, legal sequences must raise no error, and handler invocations must equal the legally completed requests. The same oracle is run over every sequence of 1..3 symbols of a 49-symbol alphabet (complete in the thorough tier, a seed-chosen residue class of the length-3 sequences in the quick tier) and over a seed-chosen sixteenth of the length-4 sequences (thorough). Exploration only: exhaustive within that bounded alphabet, sampled beyond it.",
    note="Trusted: the reaction table of DESIGN appendix A (union of what RFC 7540/9113 permit, so server latitude is never flagged); quiescence from hook counters.",
    ref="6.2 C08, appendix A"),
  "C09": dict(technique="property-based testing (rapid) of offence placement: catalogue of stream-scoped offences x offence point x in-flight frames among well-formed streams that share HPACK dynamic-table entries; exchange oracle on every non-offending stream",
